@@ -407,6 +407,24 @@ fn check_reg(reg: &Reg, m: &M) -> Option<(&'static str, String, u32)> {
             return Some(("I3-iter", format!("iter() item {} = {:#010x}, model slot {} = {:#010x}; iter = {}, model = {}", k, it[k], k, want[k], words_str(&it[..n]), words_str(want)), it[k]));
         }
     }
+    // I5: the slot-index selection read path, on the identity and the reversed tuple
+    // (between them every slot), for every live six- or seven-slot register
+    let sel = match reg {
+        Reg::Six(x) => Some((x.five_from_permutation([0, 1, 2, 3, 4]), x.five_from_permutation([5, 4, 3, 2, 1]), [5usize, 4, 3, 2, 1])),
+        Reg::Seven(x) => Some((x.five_from_permutation([0, 1, 2, 3, 4]), x.five_from_permutation([6, 5, 4, 3, 2]), [6usize, 5, 4, 3, 2])),
+        _ => None,
+    };
+    if let Some((ident, rev, ridx)) = sel {
+        let (ia, ra) = (ident.to_arr(), rev.to_arr());
+        for j in 0..5 {
+            if ia[j] != want[j] {
+                return Some(("I5-select", format!("five_from_permutation([0,1,2,3,4]) slot {} = {:#010x}, model slot {} = {:#010x}", j, ia[j], j, want[j]), ia[j]));
+            }
+            if ra[j] != want[ridx[j]] {
+                return Some(("I5-select", format!("five_from_permutation({:?}) slot {} = {:#010x}, model slot {} = {:#010x}", ridx, j, ra[j], ridx[j], want[ridx[j]]), ra[j]));
+            }
+        }
+    }
     if let Reg::Three(t) = reg {
         for k in 0..3 {
             if t.0[k] != want[k] {
@@ -833,6 +851,7 @@ impl C19 {
 
 const ALPHA_TAGS: usize = 0;
 const ALPHA_CARDS: usize = 1;
+#[allow(dead_code)]
 const ALPHA_ARB: usize = 2;
 const ALPHA_SORTED: usize = 3;
 const ALPHA_MIXED: usize = 4;
@@ -1435,6 +1454,7 @@ impl World for C19 {
                         "I2 each positional accessor equals model[k]",
                         "I3 iter() yields exactly N items equal to the model in order",
                         "I4 Three's public field equals the model",
+                        "I5 on every live Six/Seven, selection by the identity tuple and by the reversed tuple returns the model's words at those indexes",
                         "frame: every register not named by the operation still satisfies I1-I4 against its unchanged model",
                     ]
                     .iter()
